@@ -150,3 +150,20 @@ def finish(ctx, level="proof", rule="", samples=None, evaluations=0, distinct=0,
         ctx.pid, ctx.tier, evaluations, distinct, cov.get("discharged", 0), cov.get("obligations", 0),
         time.time() - ctx.t0))
     return 0
+
+
+def corpus(pid, tier="quick"):
+    """Minimised failing inputs kept from earlier findings, run first on every check: corpus/<pid>.cases (hand-kept
+    witnesses of repaired defects), corpus/<pid>.seeded.cases (one per seeded change, harvested by bin/harvest_corpus),
+    and corpus/<pid>.thorough.cases (expensive ones, thorough tier only)."""
+    out = []
+    names = [pid + ".cases", pid + ".seeded.cases"] + ([pid + ".thorough.cases"] if tier == "thorough" else [])
+    for name in names:
+        p = os.path.join(ROOT, "corpus", name)
+        if os.path.exists(p):
+            out += [l.strip() for l in open(p) if l.strip() and not l.startswith("#")]
+    # case ids label results: give the corpus cases ids of their own (second token of every case kind)
+    for i, l in enumerate(out):
+        t = l.split(" ", 2)
+        out[i] = "%s %d %s" % (t[0], 9000000 + i, t[2])
+    return out
